@@ -192,6 +192,28 @@ impl vstd::std_specs::cmp::PartialOrdSpecImpl for FeelDate {
         {'kind': 'fn', 'src': DT, 'path': 'impl FeelDaysAndTimeDuration::fn as_seconds', 'key': 'calendar::FeelDaysAndTimeDuration::as_seconds',
          'props': P15, 'auto_props': A15, 'loops': 0, 'ret': 'r',
          'ensures': [('whole_seconds_toward_zero', 'isize::MIN <= self.0 <= isize::MAX ==> r == (if self.0 >= 0 { self.0 as int / 1_000_000_000 } else { -((-self.0 as int) / 1_000_000_000) })')]},
+        # duration arithmetic: plain i128 nanoseconds; a sum / difference outside i128 is excluded by a stated precondition (literals hold at most
+        # i64 seconds, about 2^93 nanoseconds)
+        {'kind': 'fn', 'src': DT, 'path': 'impl std::ops::Add<FeelDaysAndTimeDuration> for FeelDaysAndTimeDuration::fn add', 'key': 'calendar::FeelDaysAndTimeDuration::add',
+         'impl_header': 'impl FeelDaysAndTimeDuration {', 'sig_rewrite': [(r'^(\s*)fn ', r'\1pub fn ')],
+         'props': P15, 'auto_props': A15, 'loops': 0, 'ret': 'r',
+         'requires': [('representable', 'i128::MIN <= self.0 + rhs.0 <= i128::MAX')], 'ensures': [('sum_of_nanoseconds', 'r.0 == self.0 + rhs.0')]},
+        {'kind': 'fn', 'src': DT, 'path': 'impl std::ops::Sub<FeelDaysAndTimeDuration> for FeelDaysAndTimeDuration::fn sub', 'key': 'calendar::FeelDaysAndTimeDuration::sub',
+         'impl_header': 'impl FeelDaysAndTimeDuration {', 'sig_rewrite': [(r'^(\s*)fn ', r'\1pub fn ')],
+         'props': P15, 'auto_props': A15, 'loops': 0, 'ret': 'r',
+         'requires': [('representable', 'i128::MIN <= self.0 - rhs.0 <= i128::MAX')], 'ensures': [('difference_in_order', 'r.0 == self.0 - rhs.0')]},
+        {'kind': 'fn', 'src': DT, 'path': 'impl std::ops::Neg for FeelDaysAndTimeDuration::fn neg', 'key': 'calendar::FeelDaysAndTimeDuration::neg',
+         'impl_header': 'impl FeelDaysAndTimeDuration {', 'sig_rewrite': [(r'^(\s*)fn ', r'\1pub fn ')],
+         'props': P15, 'auto_props': A15, 'loops': 0, 'ret': 'r',
+         'requires': [('not_min', 'self.0 != i128::MIN')], 'ensures': [('negated', 'r.0 == -self.0')]},
+        {'kind': 'fn', 'src': DT, 'path': 'impl FeelDaysAndTimeDuration::fn nano', 'key': 'calendar::FeelDaysAndTimeDuration::nano',
+         'props': P15, 'auto_props': A15, 'loops': 0, 'ret': 'r',
+         'requires': [('representable', 'i128::MIN <= old(self).0 + nano <= i128::MAX')], 'ensures': [('adds_nanoseconds', 'r.0 == old(self).0 + nano')]},
+        {'kind': 'fn', 'src': DT, 'path': 'impl FeelDaysAndTimeDuration::fn second', 'key': 'calendar::FeelDaysAndTimeDuration::second',
+         'props': P15, 'auto_props': A15, 'loops': 0, 'ret': 'r',
+         'requires': [('representable', 'i128::MIN <= old(self).0 + sec * 1_000_000_000 <= i128::MAX')], 'ensures': [('adds_seconds', 'r.0 == old(self).0 + sec * 1_000_000_000')]},
+        {'kind': 'fn', 'src': DT, 'path': 'impl FeelDaysAndTimeDuration::fn build', 'key': 'calendar::FeelDaysAndTimeDuration::build',
+         'props': P15, 'auto_props': A15, 'loops': 0, 'ret': 'r', 'ensures': [('same_duration', 'r.0 == old(self).0 && final(self).0 == old(self).0')]},
         # ------------------------------------------------------------------ zone offsets and time validity
         {'kind': 'item', 'src': Z, 'path': 'enum FeelZone'},
         {'kind': 'fn', 'src': Z, 'path': 'impl FeelZone::fn new', 'key': 'calendar::FeelZone::new',
@@ -237,8 +259,8 @@ NOT_DECIDED = {
     'C15': [
         'instants on the UTC time line: date-time comparison/subtraction, zone rules, weekday go through chrono (A-chrono) and are not modelled',
         'date construction from non-integer numbers (the contract quantifies over integer-valued arguments)',
-        'FeelTime / FeelDateTime accessors and the before/after/between families in temporal/mod.rs',
-        'duration addition/negation operator impls (Add/Sub/Neg) - plain i128 arithmetic, not yet under contract',
+        'FeelTime / FeelDateTime accessors (the before/after/between families of FeelDateTime: unit timeline)',
+        'a duration sum / difference outside i128 nanoseconds is excluded by a stated precondition (callers are not checked to establish it)',
     ],
     'C14': [
         'acceptance of literals (regular expressions), fraction digits through f64, IANA zone names (chrono-tz)',
